@@ -1,9 +1,13 @@
--- PINNED by bin/pin_tables: copy of Gen/Dispatch.lean as generated from /repo at 147f226 — regenerate, do not edit
+-- PINNED by bin/pin_tables: copy of Gen/Dispatch.lean as generated from /repo at e517f60 — regenerate, do not edit
 namespace Ggql.Pinned
 def dispatchOrder : List String := ["resolver", "any", "reflect"]
 def opFallbackAnyName : Bool := false
 def nullVarUsesDefault : Bool := false
 def argCountCheckOnly : Bool := false
+def subtypeNarrow : Bool := false
+def dupScalarDropped : Bool := false
+def dirArgWrapperAccepted : Bool := false
+def descRaw : Bool := false
 def listNotCoerced : Bool := false
 def symbolUnchecked : Bool := false
 end Ggql.Pinned
